@@ -1398,18 +1398,18 @@ Proof.
   - exists st. split; [reflexivity|]. rewrite Hs by (left; exact H). symmetry. apply Hwf. left. exact H.
 Qed.
 
-Lemma auth_do_tok_refines_spec p bd sc tb tsc :
+Lemma auth_do_tok_at_refines_spec p bd sc tb tsc t0 :
   wf_body bd -> replayable bd -> wf_body tb -> replayable tb ->
-  let a := auth_do_tok p None bd sc tb tsc in
+  let a := auth_do_tok_at p None bd sc tb tsc t0 in
   (ak_res a, ak_time a, attempts (ak_first a), attempts (ak_token a), attempts (ak_second a))
-  = spec_auth p bd sc tb tsc.
+  = spec_auth_at p bd sc tb tsc t0.
 Proof.
-  intros Hwf Hrep Hwt Hrt. unfold auth_do_tok, auth_do_tok_at, spec_auth.
-  pose proof (round_trip_refines_spec_st p bd sc 0 (init_state bd) Hwf Hrep eq_refl) as E1. cbv zeta in E1.
-  destruct (round_trip_bodies_gen p None bd sc 0%nat (init_state bd) 0 Hwf eq_refl) as (_ & S1 & N1).
+  intros Hwf Hrep Hwt Hrt. unfold auth_do_tok_at, spec_auth_at.
+  pose proof (round_trip_refines_spec_st p bd sc t0 (init_state bd) Hwf Hrep eq_refl) as E1. cbv zeta in E1.
+  destruct (round_trip_bodies_gen p None bd sc 0%nat (init_state bd) t0 Hwf eq_refl) as (_ & S1 & N1).
   cbn [skipn Nat.add] in S1, N1.
-  set (o1 := round_trip p None bd (init_state bd) sc 0) in *.
-  destruct (spec_send p bd sc 0) as [[r1 t1] l1]. injection E1 as Er Et El. rewrite Er.
+  set (o1 := round_trip p None bd (init_state bd) sc t0) in *.
+  destruct (spec_send p bd sc t0) as [[r1 t1] l1]. injection E1 as Er Et El. rewrite Er.
   destruct (challenged r1); [|cbn [ak_res ak_time ak_first ak_token ak_second attempts]; congruence].
   destruct (rewind_replayable bd (o_st o1) Hwf Hrep N1) as (st2 & Hrw & Hfresh).
   destruct (bearer_challenged r1); cbn [negb orb].
@@ -1568,4 +1568,58 @@ Proof.
   - repeat split; auto. apply pauses_done_weaken. exact Dp.
   - destruct Hput as (_ & _ & _ & T & _). lia.
   - exists (ak_time post). split; [exact Tp|exact Hput].
+Qed.
+
+Lemma auth_do_tok_refines_spec p bd sc tb tsc :
+  wf_body bd -> replayable bd -> wf_body tb -> replayable tb ->
+  let a := auth_do_tok p None bd sc tb tsc in
+  (ak_res a, ak_time a, attempts (ak_first a), attempts (ak_token a), attempts (ak_second a))
+  = spec_auth p bd sc tb tsc.
+Proof. exact (fun H1 H2 H3 H4 => auth_do_tok_at_refines_spec p bd sc tb tsc 0 H1 H2 H3 H4). Qed.
+
+Lemma plain_tok_at_refines_spec p bd sc t0 :
+  wf_body bd -> replayable bd ->
+  let a := plain_tok_at p None bd sc t0 in
+  (ak_res a, ak_time a, attempts (ak_first a), attempts (ak_token a), attempts (ak_second a))
+  = spec_plain_at p bd sc t0.
+Proof.
+  intros Hwf Hrep. unfold plain_tok_at, spec_plain_at. cbn [ak_res ak_time ak_first ak_token ak_second attempts].
+  pose proof (round_trip_refines_spec_st p bd sc t0 (init_state bd) Hwf Hrep eq_refl) as E. cbv zeta in E.
+  destruct (spec_send p bd sc t0) as [[r t] l]. injection E as -> -> ->. reflexivity.
+Qed.
+
+Definition show_authk (a : authk_out) :=
+  (ak_res a, ak_time a, attempts (ak_first a), attempts (ak_token a), attempts (ak_second a)).
+
+(* the whole blob push (POST, token requests, PUT) refines the stateless spec_push *)
+Lemma blob_push_tok_refines_spec authc p bd sc tb tsc :
+  wf_body bd -> replayable bd -> wf_body tb -> replayable tb ->
+  let u := blob_push_tok authc p None bd sc tb tsc in
+  (uk_res u, uk_time u, show_authk (uk_post u), option_map show_authk (uk_put u))
+  = spec_push authc p bd sc tb tsc.
+Proof.
+  intros Hwf Hrep Hwt Hrt. unfold blob_push_tok, spec_push.
+  assert (Hnb : wf_body no_body) by (intros _; reflexivity).
+  assert (Hrn : replayable no_body) by (right; reflexivity).
+  assert (Hpost : show_authk (if authc then auth_do_tok_at p None no_body sc tb tsc 0 else plain_tok_at p None no_body sc 0)
+                  = (if authc then spec_auth_at p no_body sc tb tsc 0 else spec_plain_at p no_body sc 0)).
+  { destruct authc; [apply auth_do_tok_at_refines_spec|apply plain_tok_at_refines_spec]; assumption. }
+  set (post := if authc then auth_do_tok_at p None no_body sc tb tsc 0 else plain_tok_at p None no_body sc 0) in *.
+  destruct (if authc then spec_auth_at p no_body sc tb tsc 0 else spec_plain_at p no_body sc 0)
+    as [[[[r t] l1] kl] l2] eqn:Esp.
+  unfold show_authk in Hpost. injection Hpost as Er Et E1 Ek E2.
+  rewrite Er. destruct (accepted r); cbn [uk_res uk_time uk_post uk_put option_map].
+  2:{ unfold show_authk. congruence. }
+  unfold authk_attempts. rewrite E1, E2, Ek, Et.
+  set (sc' := skipn (length (l1 ++ l2)) sc). set (tsc' := skipn (length kl) tsc).
+  assert (Hput : show_authk (if authc && negb match l2 with [] => false | _ :: _ => true end
+                             then auth_do_tok_at p None bd sc' tb tsc' t else plain_tok_at p None bd sc' t)
+                 = (if authc && negb match l2 with [] => false | _ :: _ => true end
+                    then spec_auth_at p bd sc' tb tsc' t else spec_plain_at p bd sc' t)).
+  { destruct (authc && negb match l2 with [] => false | _ :: _ => true end);
+      [apply auth_do_tok_at_refines_spec|apply plain_tok_at_refines_spec]; assumption. }
+  set (put := if authc && negb match l2 with [] => false | _ :: _ => true end
+              then auth_do_tok_at p None bd sc' tb tsc' t else plain_tok_at p None bd sc' t) in *.
+  rewrite <- Hput. unfold show_authk at 2 3. cbn [fst snd].
+  unfold show_authk. rewrite Er, Et, E1, Ek, E2. reflexivity.
 Qed.
